@@ -55,14 +55,15 @@ def has_decimal(v, depth=0):
 doc_eq = X.doc_eq
 
 
-def observe(x, cls, compact, loose=False, fixpoint_only=False):
+def observe(x, cls, compact, loose=False, fixpoint_only=False, ku=None):
     """One round trip on the implementation.  Returns dict with the reified observations and the
     spec verdicts: stage in (None, 'ser-raises', 'impure', 'deser-raises', 'not-equal', 'not-fixpoint').
     loose (or a Decimal in x): the instance holds a value whose JSON form is documented as lossy -- the clause
     judged is the weaker one: equality up to that loss and serialize(deserialize(serialize(x))) == serialize(x).
-    fixpoint_only (an Anything field is involved: tuples/sets come back as lists): only the fixpoint is judged."""
+    fixpoint_only (an Anything field is involved: tuples/sets come back as lists): only the fixpoint is judged.
+    ku: deserialize(..., keep_undefined=ku) instead of the default (for instances carrying additional properties)."""
     from typedpy import Serializer, Deserializer, serialize
-    o = {"compact": compact, "stage": None, "exn": None}
+    o = {"compact": compact, "stage": None, "exn": None, "ku": ku}
     loose = loose or fixpoint_only or has_decimal(x)
     o["loose"] = loose
     o["fixpoint_only"] = fixpoint_only
@@ -93,7 +94,7 @@ def observe(x, cls, compact, loose=False, fixpoint_only=False):
         return o
     try:
         with compact_deser(compact):
-            y = Deserializer(cls).deserialize(j)
+            y = Deserializer(cls).deserialize(j) if ku is None else Deserializer(cls).deserialize(j, keep_undefined=ku)
     except Exception as ex:  # noqa
         o.update(stage="deser-raises", exn=E.exn_name(ex), deser=("raise", E.exn_name(ex)), detail=str(ex)[:200])
         return o
@@ -268,7 +269,7 @@ def localise(f, v, o, ctx, depth=0):
 def diagnose(c, kw, x, o, ctx, depth=0):
     """(key shape, what, replay data) for a failing round trip of instance x = c(**kw)."""
     fields = {fd["name"]: fd["field"] for fd in c["fields"]}
-    src = python_src(c, kw, ctx, o["compact"])
+    src = python_src(c, kw, ctx, o["compact"], o.get("ku"))
     # 0. root cause F17, wherever it sits in the instance: a REQUIRED field whose (valid) value is None is dropped by
     #    the serializer, and the constructor then misses a required argument
     if o["stage"] == "deser-raises" and o["exn"] in ("TypeError", "ValueError") and "required" in (o.get("detail") or ""):
@@ -362,10 +363,11 @@ def field_python_src(f, v, ctx):
             "print(j)\ny = Deserializer(T).deserialize(j)\nprint(y == x)\n" % (SG.field_src(f), G.py_src(v)))
 
 
-def python_src(c, kw, ctx, compact):
+def python_src(c, kw, ctx, compact, ku=None):
     return (X.IMPORTS + "from typedpy import Serializer, Deserializer\n" + ctx.source() +
-            "\nx = %s(%s)\nj = Serializer(x).serialize(compact=%r)\nprint(j)\ny = Deserializer(%s).deserialize(j)\nprint(y == x)\n" % (
-                c["name"], ", ".join("%s=%s" % (k, G.py_src(v)) for k, v in kw), compact, c["name"]))
+            "\nx = %s(%s)\nj = Serializer(x).serialize(compact=%r)\nprint(j)\ny = Deserializer(%s).deserialize(j%s)\nprint(y == x)\n" % (
+                c["name"], ", ".join("%s=%s" % (k, G.py_src(v)) for k, v in kw), compact, c["name"],
+                "" if ku is None else ", keep_undefined=%r" % ku))
 
 
 # ------------------------------------------------------------------ Coq evaluation
@@ -524,6 +526,7 @@ def coq_eval_groups(groups, ty, fns, tag, per=250):
 def build_cases(rnd, tier):
     n_classes = 110 if tier == "quick" else 450
     SG.EXTRA_INJECT = True
+    SG.EXTRA_NAMES, SG.EXTRA_P = list(X.EXTRA_NAMES), 0.35
     G.EXTRA_ITEM_GEN = X.gen_json_extra
     ctx, pools = SG.build_world(rnd, n_classes, max_depth=2 if tier == "quick" else 3, field_gen=X.gen_field_main,
                                 ctx_cls=X.XContext)
@@ -551,6 +554,7 @@ def build_ext_cases(rnd, tier):
     at every position; judged on the implementation only."""
     n_classes = 70 if tier == "quick" else 400
     SG.EXTRA_INJECT = True
+    SG.EXTRA_NAMES, SG.EXTRA_P = list(X.EXTRA_NAMES), 0.35
     G.EXTRA_ITEM_GEN = X.gen_json_extra
     ctx, pools = SG.build_world(rnd, n_classes, max_depth=2 if tier == "quick" else 3, prefix="E",
                                 field_gen=X.gen_field_ext, ctx_cls=X.XContext)
@@ -621,6 +625,18 @@ def judge(rep, stream, ctx, cases, modelled=True):
         kinds = class_kinds(c, ctx)
         o = observe(x, ctx.classes[c["name"]], case["compact"], fixpoint_only=bool(kinds & {"any", "anyj"}))
         obs.append(o)
+        if X.has_extras(x):
+            # additional properties (at any depth): the second entry point, deserialize(..., keep_undefined=True), must
+            # bring every one of them back whatever its name
+            rep.stat(stream, "instances-with:additional-properties")
+            for nm in X.extra_names(x):
+                rep.stat(stream, "extra-name:" + X.name_class(nm))
+            o2 = observe(x, ctx.classes[c["name"]], case["compact"], fixpoint_only=bool(kinds & {"any", "anyj"}), ku=True)
+            rep.stat(stream, "outcome(keep_undefined=True):" + (o2["stage"] or "ok"))
+            if o2["stage"] is not None and not (o2["stage"] in EXCUSABLE and "anyof" in kinds and X.ambiguous_anyof(x, ctx)):
+                if o["stage"] is None or o["stage"] in ("not-equal", "not-fixpoint"):
+                    # the default entry point passes, or loses the extras (F23): what fails is the keep_undefined=True path
+                    o.update({k: o2[k] for k in o2 if k not in ("ser", "deser", "doc")})
         shape = (tuple(sorted(G.shape(fd["field"]) for fd in c["fields"])), bool(c.get("ignore_none")), c.get("additional"),
                  case["compact"], tuple((k, v[0]) for k, v in case["kw"]), case.get("label"))
         rep.count(stream, 1, shape)
